@@ -318,7 +318,9 @@ def run_replay(binary, bundles, flags, tag, threads=None, deadline=20, timeout=7
     out = os.path.join(RUN, "replay-%s.json" % tag)
     states = os.path.join(RUN, "states-%s.ndjson" % tag)
     th = threads or max(4, NCPU - 2)
-    cmd = "set -o pipefail; pigz -dc %s | %s replay --bundles - --out %s --states-out %s --threads %d --deadline %d %s" % (
+    # the harness may stop reading early (after several calls that do not return): its own exit status counts,
+    # not a SIGPIPE of the decompressor
+    cmd = "pigz -dc %s | %s replay --bundles - --out %s --states-out %s --threads %d --deadline %d %s; exit ${PIPESTATUS[1]}" % (
         bundles, binary, out, states, th, deadline, " ".join(flags))
     t0 = time.time()
     rc, o = sh(["bash", "-c", cmd], timeout=timeout)
@@ -472,7 +474,7 @@ def add_replay(v, r, meta, what, props_counted):
                            "cases_executed": r["cases"], "nontrivial_cases": r["nontrivial_cases"],
                            "observer_comparisons": r["observer_checks"], "pull_word_runs": r["pull_checks"], "lookup_batteries": r["lookup_checks"],
                            "comparisons_for_this_property": n, "policy_divergences": r["abandoned_policy"], "path_failures": r["path_failures"],
-                           "hangs": r["hangs"], "distinct_real_states": r["distinct_real_states"], "result_classes": r["classes"],
+                           "hangs": r["hangs"], "representation_differs_after_clear_not_a_verdict": r.get("repr_differs_after_clear", 0), "distinct_real_states": r["distinct_real_states"], "result_classes": r["classes"],
                            "debug_assertions": r["debug_assertions"], "digest": r["digest"], "flags": r["flags"], "wall_s": round(r["wall_s"], 1),
                            "bundles_from_cache_keyed_by_spec_hash": meta["cached"]})
     for s in r["samples"][:2]:
